@@ -7,6 +7,7 @@ pub mod c06;
 pub mod c07;
 pub mod c08;
 pub mod c08_racer;
+pub mod c08_busy;
 pub mod c09;
 pub mod c10;
 pub mod c11;
@@ -135,6 +136,7 @@ pub fn replay(property: &str, part: &str, case: &serde_json::Value) -> Option<Re
         ("C17", "typed-calls") => replay_part(&c17::Calls, case, 1),
         ("C08", "shutdown-scenarios") => replay_part(&c08::Shutdowns, case, 1),
         ("C08", "teardown-racer") => replay_part(&c08_racer::Racer, case, 10),
+        ("C08", "busy-handlers") => replay_part(&c08_busy::BusyHandlers, case, 5),
         _ => return None,
     })
 }
